@@ -36,13 +36,13 @@ WATCHDOG_S = {"quick": 900, "thorough": 3400}
 SHARD_BUDGET_S = {"quick": 40, "thorough": 600}
 
 OPS = ("mul", "rmul", "add", "eq", "x", "y", "to_affine", "scale", "double", "neg", "mul_add", "pickle", "verify", "precompute", "precompute_lazy", "sign", "to_string", "mulS", "addGS",
-       "pickleS", "to_affineG", "scaleG", "xS", "yG", "pickle_vk", "mul_addQ", "verify2", "copy_vk", "deepcopy_sk", "to_affineQ2")
+       "pickleS", "to_affineG", "scaleG", "xS", "yG", "pickle_vk", "mul_addQ", "verify2", "copy_vk", "deepcopy_sk", "to_affineQ2", "mul_add_rev", "negS", "addSG")
 
 
 DIRECTED = [("pickle", "to_affineG"), ("pickle", "scaleG"), ("pickleS", "to_affine"), ("pickleS", "scale"), ("pickle", "mul"), ("pickle", "mul_add"),
             ("pickle_vk", "precompute"), ("pickle_vk", "verify"), ("to_affineG", "x"), ("scaleG", "yG"), ("to_affine", "y"), ("scale", "xS"),
             ("mul", "rmul"), ("precompute_lazy", "verify"), ("eq", "scaleG"), ("addGS", "to_affine"), ("to_affineG", "to_affineG"), ("scale", "scale"),
-            ("mul_add", "mul_addQ"), ("verify", "verify2"), ("copy_vk", "sign"), ("deepcopy_sk", "verify"), ("copy_vk", "mul"), ("to_affine", "to_affineQ2"), ("to_affineQ2", "to_affineQ2")]
+            ("mul_add", "mul_add_rev"), ("mul_add_rev", "mul_add"), ("negS", "scale"), ("scale", "negS"), ("addGS", "addSG"), ("mul_add", "mul_addQ"), ("verify", "verify2"), ("copy_vk", "sign"), ("deepcopy_sk", "verify"), ("copy_vk", "mul"), ("to_affine", "to_affineQ2"), ("to_affineQ2", "to_affineQ2")]
 
 
 def monitored_codes():
@@ -156,6 +156,12 @@ class Scenario(object):
             return cv.add(cv.mul(arg, G), cv.mul(arg2, Sp))
         if op == "mul_addQ":
             return cv.add(cv.mul(arg, G), cv.mul(arg2, Q))
+        if op == "mul_add_rev":
+            return cv.add(cv.mul(arg, Sp), cv.mul(arg2, G))
+        if op == "negS":
+            return cv.neg(Sp)
+        if op == "addSG":
+            return cv.add(Sp, G)
         if op == "verify2":
             return True
         if op == "copy_vk":
@@ -229,6 +235,12 @@ def perform(sh, sc, op, arg, arg2):
         return aff(G.mul_add(arg, Sp, arg2))
     if op == "mul_addQ":
         return aff(G.mul_add(arg, Q, arg2))
+    if op == "mul_add_rev":          # the two shared points in the opposite roles
+        return aff(Sp.mul_add(arg, G, arg2))
+    if op == "negS":
+        return aff(-Sp)
+    if op == "addSG":
+        return aff(Sp + G)
     if op == "verify2":
         return sh["vk2"].verify(sc.sig2, sc.msg, hashfunc=sc.hf)
     if op == "copy_vk":
@@ -272,12 +284,19 @@ def perform(sh, sc, op, arg, arg2):
     raise ValueError(op)
 
 
-OPCLS = {"mul_addQ": "mul_add", "verify2": "verify", "copy_vk": "pickle", "deepcopy_sk": "pickle", "to_affineQ2": "to_affine", "mul": "mul", "rmul": "mul", "mulS": "mul", "add": "add", "addGS": "add", "precompute_lazy": "precompute", "pickleS": "pickle", "pickle_vk": "pickle",
+OPCLS = {"mul_add_rev": "mul_add", "negS": "neg", "addSG": "add", "mul_addQ": "mul_add", "verify2": "verify", "copy_vk": "pickle", "deepcopy_sk": "pickle", "to_affineQ2": "to_affine", "mul": "mul", "rmul": "mul", "mulS": "mul", "add": "add", "addGS": "add", "precompute_lazy": "precompute", "pickleS": "pickle", "pickle_vk": "pickle",
          "to_affineG": "to_affine", "scaleG": "scale", "xS": "x", "yG": "y"}
 
 
 def one_run(ctx, sc, decider, hooks, cls, seen, check_every=1, snapshot_every=40):
-    sh = sc.build()
+    try:
+        return _one_run(ctx, sc, decider, hooks, cls, seen, check_every, snapshot_every)
+    finally:
+        S.virtual_locks_off()
+        hooks.sched = None
+
+
+def _one_run(ctx, sc, decider, hooks, cls, seen, check_every=1, snapshot_every=40):
     cv = sc.dom.curve
     results = {}
     st = {"inv_bad": None, "n_inv": 0, "n_snap": 0, "win_scale": 0, "win_pre": 0, "in_op_switch": 0}
@@ -329,6 +348,10 @@ def one_run(ctx, sc, decider, hooks, cls, seen, check_every=1, snapshot_every=40
         return f
     for i, plan in enumerate(sc.plans):
         s.spawn(body(i, plan), "T%d" % i)
+    # locks created by the code under test from here on (in constructors, at first use) are virtual: their operations are scheduling
+    # points and a cycle of waiting threads is reported as a deadlock instead of hanging the run
+    S.virtual_locks_on(s)
+    sh = sc.build()
     hooks.sched = s
     # the monitor's own pickling / invariant code must not re-enter the scheduler: yield_point ignores non-token callers, and
     # on_point runs inside yield_point of the token holder -> guard by clearing hooks.sched while the monitor runs
